@@ -2,7 +2,7 @@ package main
 
 // Concurrent use of one RaftDiskStorage, the way lib/raftconn and engine/partition_raft.go use it: the Ready loop saves
 // batches and calls TrySync (with a sync interval > 0 that starts backSync goroutines), the apply path creates snapshots
-// and deletes the prefix (DeleteBefore takes no storage lock), raft and the replay path read (Entries, Term, First/LastIndex,
+// and deletes the prefix, raft and the replay path read (Entries, Term, First/LastIndex,
 // Snapshot, SlotGe, GetFirstLast, EntrySize, NumEntries) at any time. The binary for this mode is built with -race; the
 // driver counts the race reports. The oracle is sound under every interleaving: entry i always has term 1+i/700 and a
 // payload that is a function of i, so whatever a reader gets back can be checked without knowing what the writer did
@@ -37,6 +37,9 @@ type concRun struct {
 	snapped atomic.Uint64 // index of the last snapshot whose CreateSnapshot has returned
 	stop    atomic.Bool
 	stats   map[string]int
+	// DeleteBefore takes no storage lock: a reader that is inside a file while that file is removed reads from a closed
+	// descriptor. The run keeps the removal apart from the readers' calls (the writer is not held back); see NOTES.
+	delMu sync.RWMutex
 }
 
 func (c *concRun) fail(kind, f string, a ...any) {
@@ -143,7 +146,10 @@ func concCase(no int, r *gen.Rand, total uint64) *Case {
 						run.count("csnap")
 					}
 					if sp, e := ds.Snapshot(); e == nil && sp.Metadata.Index > 0 {
-						if e := ds.DeleteBefore(sp.Metadata.Index); e == nil {
+						run.delMu.Lock()
+						e := ds.DeleteBefore(sp.Metadata.Index)
+						run.delMu.Unlock()
+						if e == nil {
 							run.count("del")
 						}
 					}
@@ -158,6 +164,7 @@ func concCase(no int, r *gen.Rand, total uint64) *Case {
 		guard("reader", func() {
 			var lastFirst uint64
 			for !run.stop.Load() {
+				run.delMu.RLock()
 				a := run.acked.Load()
 				f, _ := ds.FirstIndex()
 				if f < lastFirst {
@@ -205,6 +212,7 @@ func concCase(no int, r *gen.Rand, total uint64) *Case {
 						run.fail("conc-hs", "InitialState: %v", err)
 					}
 				}
+				run.delMu.RUnlock()
 			}
 		})
 	}
